@@ -288,6 +288,42 @@ def run_suite(root):
     return last + (" | " + "; ".join(f[:120] for f in failed) if failed else "")
 
 
+def make_base():
+    global REPO
+    base = tempfile.mkdtemp(prefix="coxauto_base_")
+    subprocess.run(f"git -C {REPO} archive HEAD | tar -x -C {base}", shell=True, check=True)
+    REPO = base
+    import atexit
+    atexit.register(shutil.rmtree, base, ignore_errors=True)
+
+
+def retriage(a):
+    """Second pass: a mutant the checks of its own anchors missed is shown to all the other checks."""
+    make_base()
+    results = json.load(open(a.out))
+    allp = [f"C{n:02d}" for n in range(1, 21)]
+    for m in results:
+        if m["outcome"] != "MISSED" or "others" in m:
+            continue
+        tmp = tempfile.mkdtemp(prefix="coxauto_")
+        try:
+            shutil.copytree(os.path.join(REPO, "coxeter"), os.path.join(tmp, "coxeter"))
+            try:
+                if not apply_mutant(m, tmp):
+                    continue
+            except Exception as e:
+                m["others"] = {"error": repr(e)[:100]}
+                continue
+            m2 = dict(m, props=[p for p in allp if p not in m["props"]])
+            m["others"] = run_checks(m2, tmp)
+        finally:
+            shutil.rmtree(tmp, ignore_errors=True)
+        got = [p for p, (v, _) in m["others"].items() if v == "caught"]
+        print(f"{'caught-by-' + got[0] if got else 'MISSED-BY-ALL':16s} {m['module'].split('.')[-1]}:{m['qual']}:{m['line']} {m['desc']}  suite: {m.get('suite', '')[:120]}", flush=True)
+        with open(a.out, "w") as f:
+            json.dump(results, f, indent=1)
+
+
 def main():
     ap = argparse.ArgumentParser()
     ap.add_argument("--per-func", type=int, default=2)
@@ -295,9 +331,12 @@ def main():
     ap.add_argument("--only-prop", default=None)
     ap.add_argument("--limit", type=int, default=None)
     ap.add_argument("--no-suite", action="store_true")
+    ap.add_argument("--retriage", action="store_true", help="run every other check on the mutants no anchored check reported")
     ap.add_argument("--out", default=os.path.join(HERE, "tools", "mutants", "auto_results.json"))
     a = ap.parse_args()
     rng = random.Random(a.seed)
+    if a.retriage:
+        return retriage(a)
     muts = enumerate_mutants(a.per_func, rng, a.only_prop)
     rng.shuffle(muts)
     if a.limit:
@@ -305,11 +344,15 @@ def main():
     print(f"{len(muts)} mutants over {len({(m['module'], m['qual']) for m in muts})} anchored functions", flush=True)
     global REPO
     base = tempfile.mkdtemp(prefix="coxauto_base_")
-    shutil.copytree(os.path.join(REPO, "coxeter"), os.path.join(base, "coxeter"))
-    shutil.copytree(os.path.join(REPO, "tests"), os.path.join(base, "tests"))
-    for f in ("pyproject.toml", "setup.cfg", "conftest.py", "pytest.ini", "tox.ini"):
-        if os.path.exists(os.path.join(REPO, f)):
-            shutil.copy(os.path.join(REPO, f), base)
+    if os.path.isdir(os.path.join(REPO, ".git")):
+        # the committed tree: /repo's working tree may carry a seeded change while tools/run_seeded.sh runs
+        subprocess.run(f"git -C {REPO} archive HEAD | tar -x -C {base}", shell=True, check=True)
+    else:
+        shutil.copytree(os.path.join(REPO, "coxeter"), os.path.join(base, "coxeter"))
+        shutil.copytree(os.path.join(REPO, "tests"), os.path.join(base, "tests"))
+        for f in ("pyproject.toml", "setup.cfg", "conftest.py", "pytest.ini", "tox.ini"):
+            if os.path.exists(os.path.join(REPO, f)):
+                shutil.copy(os.path.join(REPO, f), base)
     REPO = base          # /repo may be patched (seeded changes) while the campaign runs
     import atexit
     atexit.register(shutil.rmtree, base, ignore_errors=True)
